@@ -56,7 +56,7 @@ let deb822_doc (fs : string list) : string =
     let per_para p =
       Printf.sprintf "keys=%s;get=%s;all=%s;has=%s" (cat "," (L.map hx (spec_keys p)))
         (opt_hex (spec_get p k)) (cat "," (L.map hx (spec_get_all p k))) (bool_s (spec_contains p k)) in
-    Printf.sprintf "strict=OK:%s|first=%s|look=%s" (cat ";" (L.map items_s c)) first (cat "/" (L.map per_para c))
+    Printf.sprintf "strict=OK:%s|first=%s|look=%s" (cat "" (L.map (fun p -> "[" ^ items_s p ^ "]") c)) first (cat "/" (L.map per_para c))
   end
 
 let () = register "deb822-doc" deb822_doc
